@@ -1,4 +1,5 @@
 import ShellOp.Proofs.WorkerC17
+import ShellOp.Proofs.HookQueues
 import ShellOp.Generated.Facts
 /-!
 # C17 — shutdown stops the queues cleanly
@@ -143,6 +144,60 @@ theorem waitStop_sound (cfg : Cfg) (hfix : cfg.fix = true) (ls : List Label) (hs
 `PauseHandleEvents` has set the flag of an informer, its watch events produce nothing (the model's
 `kubeEvent` step is disabled while `kubePaused`). -/
 theorem watch_events_ignored_after_pause : Facts.c17_watchEventChecksStoppedFirst = true := by decide
+
+/-! ### The stop request reaches every queue of the operator
+
+The theorems above are about `Model/Worker`, which has one cancellation flag for all queues. That
+is an assumption about the wiring in operator.go / queue_set.go; `Model/HookQueues` models that code
+(bootstrapMainQueue, StartMain, initAndStartHookQueues, NewNamedQueue, Add, WithContext and the tree of
+contexts Background ← op.ctx ← tqs.ctx) and the assumption is proved for it. -/
+
+open ShellOp.HookQueues in
+/-- **C17, quantifier "no queue / every queue worker".** For every set of hooks — any number of
+schedule and kubernetes bindings, any queue names, shared or not — every queue the operator has after
+`Start` (main included) is started and its context is cancelled by `TaskQueueSet.Stop()`, the stop
+request of `Shutdown()`; and main and every queue a binding names, of either kind, is among them.
+So the single `cancelled` flag of the worker model is what every worker of the operator sees. -/
+theorem every_operator_queue_hears_stop (sched kube : List (List QName)) :
+    (∀ q ∈ operatorQueues sched kube, hearsStop q = true ∧ q.started = true) ∧
+    (∀ n, (n = 0 ∨ (∃ h ∈ sched, n ∈ h) ∨ (∃ h ∈ kube, n ∈ h)) →
+      ∃ q ∈ operatorQueues sched kube, q.name = n) := by
+  unfold operatorQueues initAndStartHookQueues
+  obtain ⟨w1, keep1, has1⟩ := hooks_fold sched bootstrap bootstrap_wired
+  obtain ⟨w2, keep2, has2⟩ := hooks_fold kube _ w1
+  refine ⟨w2, ?_⟩
+  rintro n (rfl | ⟨h, hh, hn⟩ | ⟨h, hh, hn⟩)
+  · exact keep2 _ (keep1 _ bootstrap_has_main)
+  · exact keep2 _ (has1 h hh n hn)
+  · exact has2 h hh n hn
+
+open ShellOp.HookQueues in
+/-- Non-vacuity: a hook with a schedule binding in queue 1 and a kubernetes binding in queue 2 of its
+own, another hook with a kubernetes binding in main: three queues, all started, all hear the stop. -/
+example : ((operatorQueues [[1]] [[2], [0]]).map fun q => (q.name, q.started, hearsStop q))
+    = [(2, true, true), (1, true, true), (0, true, true)] := by decide
+
+open ShellOp.HookQueues in
+/-- **Witness (what the theorem excludes).** `Shutdown()` cancels only `tqs.ctx`: a queue that is built
+"in place" on the operator's context and registered with `Add` — for the kubernetes bindings only, the
+schedule loop untouched — is in the set, is started, and never hears the stop request; a queue name the
+two kinds of bindings share is still wired correctly (the schedule loop comes first), which is why only
+a configuration with a queue named by kubernetes bindings alone shows it. -/
+theorem queue_on_operator_context_misses_stop :
+    let s := [[2], [1]].foldl (fun s h => h.foldl (ensureOn .op) s)
+      ([[1]].foldl (fun s h => h.foldl ensure s) bootstrap)
+    s.map (fun q => (q.name, q.started, hearsStop q)) = [(2, true, false), (1, true, true), (0, true, true)] := by
+  decide
+
+open ShellOp.HookQueues in
+/-- Cancellation never goes upwards or sideways: cancelling `tqs.ctx` leaves `op.ctx`, `Background` and
+everything derived from them alone, and reaches everything derived from `tqs.ctx`. -/
+theorem stop_cancels_exactly_the_descendants_of_the_set_context (c : Ctx) :
+    Ctx.cancelledBy .set (.derived c) = Ctx.cancelledBy .set c ∧
+    Ctx.cancelledBy .set .op = false ∧ Ctx.cancelledBy .set .background = false ∧
+    Ctx.cancelledBy .set .set = true := by
+  refine ⟨?_, by decide, by decide, by decide⟩
+  simp [Ctx.cancelledBy]
 
 /-! ### Non-vacuity and witnesses -/
 
